@@ -23,7 +23,8 @@ type JobSpec struct {
 	Pkg          string `json:"pkg"`    // package dir relative to the module, e.g. "metadata"
 	Entry        string `json:"entry"`
 	CfgsQuick    []int  `json:"cfgs_quick"`
-	CfgsThorough []int  `json:"cfgs_thorough"`
+	CfgsThorough []int  `json:"cfgs_thorough"` // thorough tier: run with the history depth of the quick tier
+	CfgsDeep     []int  `json:"cfgs_deep"`     // thorough tier: run with the deeper histories (verifTier() == 1)
 	Budget       int    `json:"step_budget,omitempty"`
 }
 
